@@ -27,7 +27,7 @@ BUDGET = {"quick": 4000, "thorough": 80000}
 K_ENVS = {"quick": 6, "thorough": 12}
 MIN_NONTRIVIAL = {"quick": 150, "thorough": 1500}
 RULE = (
-    "programs: seeded accfg-family ASTs with lb!=0 / step!=1 / loop-carried operands; D = accfg-trace-states[,accfg-dedup] and "
+    "programs: seeded accfg-family ASTs with lb!=0 / step!=1 / loop-carried operands, hand-threaded state-carrying loops (some launching the entry state first), loop bodies computing %i + %step themselves (also guarded); D = accfg-trace-states[,accfg-dedup] and "
     "O = D,accfg-config-overlap compiled by the current tree. O is compared with D (launch/await/call/opaque history, register snapshots on "
     "written fields, static SSA dominance of O, no undefined value at run time) only on environments where D itself matched the traced "
     "program and D's state links were truthful (guards a, b of DESIGN.md C06). non-trivial = overlap changed the IR, >=1 launch executed and "
